@@ -7,6 +7,7 @@ package main
 import (
 	"bytes"
 	"crypto/x509"
+	"encoding/asn1"
 	"encoding/pem"
 	"fmt"
 	"net/netip"
@@ -152,7 +153,7 @@ func (m *vfModel) observeCertgen(ctx *vfReqCtx, in *vfIntent, resp *vfResp) {
 			w.violate("C09", "signed-while-sealed", "signed-while-sealed:certgen", "certificate issued while the model says sealed")
 		}
 		if !justified && !unjudged {
-			w.violate("C01", "issued-unjustified", "issued-unjustified:"+credShape(creds, cr.URLUser),
+			w.violate("C01", "issued-unjustified", "issued-unjustified:"+credKinds(creds, cr.URLUser),
 				fmt.Sprintf("certificate for %s (type %s, method %s) issued; listed=%v creds=%s", cr.URLUser, cr.Type, cr.Method, w.cfg.CertBackends, credString(creds)))
 		}
 		if cr.Method != "POST" {
@@ -198,6 +199,26 @@ func credShape(creds []vfCred, urlUser string) string {
 	var p []string
 	for _, c := range creds {
 		s := c.Kind + "[" + vfLevelString(c.Proven) + "]"
+		if !c.Valid {
+			s += "!expired"
+		}
+		if c.Subject != urlUser {
+			s += "!other"
+		}
+		p = append(p, s)
+	}
+	sort.Strings(p)
+	return strings.Join(p, "&")
+}
+
+// credential kinds and validity flags only (violation keys stay coarse; the detail has the levels)
+func credKinds(creds []vfCred, urlUser string) string {
+	if len(creds) == 0 {
+		return "none"
+	}
+	var p []string
+	for _, c := range creds {
+		s := c.Kind
 		if !c.Valid {
 			s += "!expired"
 		}
@@ -437,4 +458,61 @@ func vfIPInNets(peer string, nets []string) bool {
 		}
 	}
 	return false
+}
+
+// ---- independent reader of the RFC 3779 address extension ----------------------
+
+var vfOidIPDelegation = []int{1, 3, 6, 1, 5, 5, 7, 1, 7}
+
+type vfIPFamily struct {
+	Family []byte
+	Addrs  []asn1.BitString
+}
+
+func vfExtractNets(c *x509.Certificate) ([]string, error) {
+	for _, e := range c.Extensions {
+		if !e.Id.Equal(vfOidIPDelegation) {
+			continue
+		}
+		var fams []vfIPFamily
+		rest, err := asn1.Unmarshal(e.Value, &fams)
+		if err != nil {
+			return nil, err
+		}
+		if len(rest) != 0 {
+			return nil, fmt.Errorf("trailing bytes in address extension")
+		}
+		var out []string
+		for _, f := range fams {
+			// AFI (2 bytes, 1 = IPv4) + optional SAFI (1 byte)
+			if len(f.Family) < 2 || len(f.Family) > 3 || f.Family[0] != 0 || f.Family[1] != 1 {
+				return nil, fmt.Errorf("non-IPv4 family %x", f.Family)
+			}
+			for _, a := range f.Addrs {
+				if a.BitLength > 32 || len(a.Bytes) > 4 {
+					return nil, fmt.Errorf("prefix longer than 32 bits")
+				}
+				var b [4]byte
+				copy(b[:], a.Bytes)
+				p := netip.PrefixFrom(netip.AddrFrom4(b), a.BitLength)
+				out = append(out, p.Masked().String())
+			}
+		}
+		return out, nil
+	}
+	return nil, fmt.Errorf("no address extension")
+}
+
+func vfCanonNets(l []string) []string {
+	var out []string
+	for _, n := range l {
+		p, err := netip.ParsePrefix(n)
+		if err != nil {
+			out = append(out, "invalid:"+n)
+			continue
+		}
+		out = append(out, p.Masked().String())
+	}
+	sort.Strings(out)
+	return out
 }
